@@ -80,7 +80,7 @@ func (x *Exec) evalBuiltin(call *ast.CallExpr, fun ast.Expr, st *St, fr *Frame, 
 			if _, ok := x.W.SortOf(ty); !ok {
 				oos("make of unsupported map type %s", ty)
 			}
-			k(st, &Val{T: emptySetStr(), Ty: ty})
+			k(st, x.newMap(st, ty))
 		case *types.Chan:
 			r := x.allocRef(st, ty, "chan")
 			k(st, &Val{T: r, Ty: ty})
